@@ -98,3 +98,10 @@ def pending_before(w, r):
 
 CONNECTED = (('connect', 0, True, 0, 4), ('connack', 0, 0, False))
 CONNECTED_P = (('connect', 0, False, 0, 4), ('connack', 0, 0, False))
+
+
+def is_idle(c):
+    """The protocol of connection c is in its idle state (read from the implementation, tolerant of renames: the object
+    published as `protocol.IDLE`, or any state whose class name says idle)."""
+    st = getattr(c.proto, 'state', None)
+    return st is getattr(c.proto, 'IDLE', object()) or 'idle' in type(st).__name__.lower()
